@@ -612,7 +612,65 @@ func (e *Enc) loopVars(li *loopInfo, phiTerm func(*ssa.Phi) Term) map[string]Ter
 		}
 		vars[phi.Name()] = phiTerm(phi)
 	}
+	// source names bound to pure values computed in the head block from the phis
+	// (e.g. the index variable of a range loop, i = rangeindex + 1)
+	for name, defs := range e.nameDefs {
+		for _, d := range defs {
+			if d.IsAddr {
+				continue
+			}
+			in, ok := d.X.(ssa.Instruction)
+			if !ok || in.Block() != li.head {
+				continue
+			}
+			if _, isPhi := d.X.(*ssa.Phi); isPhi {
+				vars[name] = phiTerm(d.X.(*ssa.Phi))
+				break
+			}
+			if t, ok := e.evalPure(d.X, li.head, phiTerm, vars); ok {
+				vars[name] = t
+				break
+			}
+		}
+	}
 	return vars
+}
+
+// evalPure evaluates a side-effect-free value of the loop head block under a phi substitution.
+func (e *Enc) evalPure(v ssa.Value, head *ssa.BasicBlock, phiTerm func(*ssa.Phi) Term, vars map[string]Term) (t Term, ok bool) {
+	defer func() {
+		if r := recover(); r != nil {
+			if _, isU := r.(unsupported); isU {
+				ok = false
+				return
+			}
+			panic(r)
+		}
+	}()
+	var ev func(v ssa.Value) Term
+	ev = func(v ssa.Value) Term {
+		switch x := v.(type) {
+		case *ssa.Phi:
+			if x.Block() == head {
+				return phiTerm(x)
+			}
+		case *ssa.Const:
+			return e.constTerm(x)
+		case *ssa.BinOp:
+			if x.Block() == head {
+				return e.w.binop(x.Op, ev(x.X), ev(x.Y))
+			}
+		case *ssa.Convert:
+			if x.Block() == head {
+				return e.w.convert(ev(x.X), x.Type())
+			}
+		}
+		if in, isIn := v.(ssa.Instruction); isIn && in.Block() == head {
+			panic(unsupported("not pure"))
+		}
+		return e.term(v)
+	}
+	return ev(v), true
 }
 
 // loopWrites: memories that instructions inside the loop may write.
@@ -1022,38 +1080,12 @@ func (e *Enc) backEdge(from, to *ssa.BasicBlock, cond string) {
 			predIdx = i
 		}
 	}
-	vars := map[string]Term{}
-	for k, v := range li.vars {
-		vars[k] = v
-	}
-	for _, in := range to.Instrs {
-		phi, ok := in.(*ssa.Phi)
-		if !ok {
-			break
-		}
+	vars := e.loopVars(li, func(phi *ssa.Phi) Term {
 		t := e.term(phi.Edges[predIdx])
 		t.T = phi.Type()
-		if phi.Comment != "" {
-			vars[phi.Comment] = t
-		}
-		vars[phi.Name()] = t
-	}
-	// address-taken locals are re-read in the current state
-	for name, defs := range e.nameDefs {
-		for _, d := range defs {
-			if d.IsAddr && d.Block().Dominates(to) && d.Block() != to {
-				if v, ok := e.vals[d.X].(Term); ok {
-					if pt, ok := v.T.Underlying().(*types.Pointer); ok {
-						func() {
-							defer func() { recover() }()
-							vars[name] = w.loadAt(e.cur, e.useMem, &Addr{base: v.S, elem: pt.Elem()})
-						}()
-					}
-				}
-				break
-			}
-		}
-	}
+		return t
+	})
+	_ = w
 	saved := e.curReach
 	e.curReach = cond
 	// ghost range sets at the latch
